@@ -7,18 +7,30 @@ import (
 	"pgregory.net/rapid"
 )
 
-var tagTypes = []int{0x0101, 0x0102, 0x0103, 0x0104, 0x0105, 0x0110, 0x0201, 0x0202, 0x0203, 0x0000, 0x1234}
+var tagTypes = []int{0x0101, 0x0102, 0x0103, 0x0104, 0x0105, 0x0105, 0x0110, 0x0201, 0x0202, 0x0203, 0x0000, 0x1234}
 
 func addTags(rt *rapid.T, p *bld, must ...int) {
 	types := append([]int(nil), must...)
+	d := dictFor("pppoe")
 	for n := rapid.IntRange(0, 4).Draw(rt, "ntags"); n > 0; n-- {
-		types = append(types, rapid.SampledFrom(tagTypes).Draw(rt, "tagType"))
+		tt := rapid.SampledFrom(tagTypes).Draw(rt, "tagType")
+		if uni(rt, 100, "tagFromDict") < 20 {
+			tt = int(dictInt(rt, d, 16, "tagCode"))
+		}
+		types = append(types, tt)
 	}
 	for _, tt := range types {
 		p.u16(tt)
 		i := p.len16()
 		var v []byte
 		switch tt {
+		case 0x0105:
+			// Vendor-Specific (RFC 2516 A / TR-101): 4-byte vendor id, then sub-tags (type, length, value)
+			start := len(p.b)
+			p.raw(be32(dictInt(rt, d, 32, "vendor"))...)
+			subTLVs(rt, p, d, 1, 1, false, "vtag")
+			p.set(i, len(p.b)-start)
+			continue
 		case 0x0101:
 			v = []byte(rapid.SampledFrom([]string{"", "internet", "other"}).Draw(rt, "svc"))
 		case 0x0104:
@@ -34,7 +46,7 @@ func addTags(rt *rapid.T, p *bld, must ...int) {
 // discovery payload (after the Ethernet header)
 func bldDiscovery(rt *rapid.T) *bld {
 	p := &bld{}
-	code := rapid.SampledFrom([]int{0x09, 0x09, 0x19, 0x19, 0xa7, 0xa7, 0x07, 0x65, 0x00}).Draw(rt, "code")
+	code := dictType(rt, dictFor("pppoe"), "code", 0x09, 0x09, 0x19, 0x19, 0xa7, 0xa7, 0x07, 0x65, 0x00)
 	sid := rapid.SampledFrom([]int{0, 1, 1, 1, 2, 0xffff}).Draw(rt, "sid")
 	p.u8(rapid.SampledFrom([]int{0x11, 0x11, 0x11, 0x00, 0x21}).Draw(rt, "vertype")).u8(code).u16(sid)
 	i := p.len16()
@@ -74,7 +86,7 @@ func addOpts(rt *rapid.T, p *bld, proto int) {
 		var data []byte
 		switch proto {
 		case 0x8021: // IPCP
-			typ = rapid.SampledFrom([]int{3, 3, 129, 131, 2, 1, 77}).Draw(rt, "optType")
+			typ = dictType(rt, dictFor("pppoe"), "optType", 3, 3, 129, 131, 2, 1, 77)
 			switch typ {
 			case 3, 129, 131:
 				data = rapid.SampledFrom([][]byte{{0, 0, 0, 0}, {10, 9, 0, 2}, {10, 9, 0, 9}, {8, 8, 8, 8}, {255, 255, 255, 255}}).Draw(rt, "ip")
@@ -82,14 +94,14 @@ func addOpts(rt *rapid.T, p *bld, proto int) {
 				data = rbytes(rt, 0, 8, "optData")
 			}
 		case 0x8057: // IPV6CP
-			typ = rapid.SampledFrom([]int{1, 1, 1, 2, 9}).Draw(rt, "optType")
+			typ = dictType(rt, dictFor("pppoe"), "optType", 1, 1, 1, 2, 9)
 			if typ == 1 {
 				data = rapid.SampledFrom([][]byte{{0, 0, 0, 0, 0, 0, 0, 0}, {1, 2, 3, 4, 5, 6, 7, 8}, {0xaa, 0xaa, 0xaa, 0xaa, 0xaa, 0xaa, 0xaa, 0xaa}}).Draw(rt, "ifid")
 			} else {
 				data = rbytes(rt, 0, 8, "optData")
 			}
 		default: // LCP
-			typ = rapid.SampledFrom([]int{1, 1, 3, 5, 5, 7, 8, 13, 0}).Draw(rt, "optType")
+			typ = dictType(rt, dictFor("pppoe"), "optType", 1, 1, 3, 5, 5, 7, 8, 13, 0)
 			switch typ {
 			case 1:
 				data = rapid.SampledFrom([][]byte{{0x05, 0xd4}, {0x05, 0xdc}, {0, 0}, {0, 0x40}, {0xff, 0xff}}).Draw(rt, "mru")
@@ -117,7 +129,7 @@ func bldCP(rt *rapid.T, proto int) *bld {
 	if proto == 0xc021 {
 		codes = append(codes, 7, 8, 9, 9, 9, 10, 11, 12, 0)
 	}
-	code := rapid.SampledFrom(codes).Draw(rt, "code")
+	code := dictType(rt, dictFor("pppoe"), "code", codes...)
 	id := rapid.SampledFrom([]int{1, 1, 1, 2, 0, 255}).Draw(rt, "id")
 	p.u8(code).u8(id)
 	i := p.len16()
